@@ -1,7 +1,7 @@
 #!/usr/bin/env python3
 """dev-time helper: pin the violations currently in replays/<prop>-*.json (optionally filtered by op regex) as a known finding.
 usage: pin.py <prop> <finding-id> <what> [op-regex]   -- never run by checks."""
-import json,glob,sys,re
+import json,glob,sys,re,os
 prop,fid,what=sys.argv[1:4]
 rx=re.compile(sys.argv[4]) if len(sys.argv)>4 else None
 nrx=re.compile(sys.argv[5]) if len(sys.argv)>5 else None   # optional: regex the note must match
@@ -14,8 +14,16 @@ for f in sorted(glob.glob('replays/%s-*.json'%prop)):
     if nnrx and nnrx.search(c.get('note','')): continue
     key=c['op']+'|'+','.join(c.get('args') or [])+'|'+c.get('mode','')+'|'+c.get('default_rounding_mode','')
     cases.append((key,c['got']))
-cases=sorted(set(cases))
 k=json.load(open('known_findings.json'))
+# merge with what is already pinned under this id (a run with the pins active only reports the new cases)
+for e in k:
+    if e['id']==fid:
+        for c in e.get('cases',[]): cases.append((c['key'],c['got']))
+        if e.get('file') and os.path.exists('known/'+e['file']):
+            for ln in open('known/'+e['file']):
+                if ln.strip() and not ln.startswith('#'):
+                    a,b=ln.rstrip('\n').split('\t',1); cases.append((a,b))
+cases=sorted(set(cases))
 k=[e for e in k if e['id']!=fid]
 e={"status":"known","property":prop,"id":fid,"what":what}
 if len(cases)<=40:
